@@ -29,7 +29,9 @@ REPO = Path(os.environ.get("VERIF_REPO", "/repo"))
 ALLOWED_AXIOMS = {"propext", "Classical.choice", "Quot.sound"}
 FLAG = {"GOOD": ".good", "UNKNOWN": ".unknown", "SUSPECT": ".suspect", "FAIL": ".fail", "MISSING": ".missing"}
 PYOP = {"add": ".add", "sub": ".sub", "mul": ".mul", "truediv": ".truediv", "pow": ".pow"}
-PIN_PROPS = {"C01": ["flag_codes"], "C04": ["flag_codes", "priorities"], "C19": ["cf_safe"], "C20": ["fx_ops"]}
+PIN_PROPS = {"C01": ["flag_codes"], "C04": ["flag_codes", "priorities"], "C19": ["cf_safe"], "C20": ["fx_ops"],
+             "C03": ["defaults_valid"], "C09": ["default_spike"], "C11": ["default_flat"], "C12": ["default_atten"],
+             "C14": ["default_location"]}
 
 
 def _parse(rel):
@@ -130,7 +132,62 @@ def fx_ops():
     return None
 
 
-EXTRACTORS = {"flag_codes": flag_codes, "priorities": priorities, "cf_safe": cf_safe, "fx_ops": fx_ops}
+def sig_defaults(rel, func, names):
+    """{name: literal default} of the named parameters of a module-level function, from its `def` line."""
+    for node in _parse(rel).body:
+        if isinstance(node, ast.FunctionDef) and node.name == func:
+            a = node.args
+            pos = a.posonlyargs + a.args
+            table = {p.arg: d for p, d in zip(pos[len(pos) - len(a.defaults):], a.defaults)}
+            table.update({p.arg: d for p, d in zip(a.kwonlyargs, a.kw_defaults) if d is not None})
+            out = {}
+            for n in names:
+                if n not in table:
+                    return None
+                try:
+                    out[n] = ast.literal_eval(table[n])
+                except Exception:  # noqa: BLE001
+                    return None
+            return out
+    return None
+
+
+def _is_num(x):
+    return isinstance(x, (int, float)) and not isinstance(x, bool) and float(x) == int(x)
+
+
+def defaults_valid():
+    d = sig_defaults("ioos_qc/axds.py", "valid_range_test", ["start_inclusive", "end_inclusive"])
+    if d is None or not all(isinstance(v, bool) for v in d.values()):
+        return None
+    return [d["start_inclusive"], d["end_inclusive"]]
+
+
+def default_spike():
+    d = sig_defaults("ioos_qc/qartod.py", "spike_test", ["method"])
+    return d["method"] if d and isinstance(d["method"], str) and d["method"].isascii() and '"' not in d["method"] else None
+
+
+def default_flat():
+    d = sig_defaults("ioos_qc/qartod.py", "flat_line_test", ["tolerance"])
+    return int(d["tolerance"]) if d and _is_num(d["tolerance"]) else None
+
+
+def default_atten():
+    d = sig_defaults("ioos_qc/qartod.py", "attenuated_signal_test", ["check_type"])
+    return d["check_type"] if d and isinstance(d["check_type"], str) and d["check_type"].isascii() and '"' not in d["check_type"] else None
+
+
+def default_location():
+    d = sig_defaults("ioos_qc/qartod.py", "location_test", ["bbox"])
+    if not d or not isinstance(d["bbox"], (tuple, list)) or not all(_is_num(v) for v in d["bbox"]):
+        return None
+    return [int(v) for v in d["bbox"]]
+
+
+EXTRACTORS = {"flag_codes": flag_codes, "priorities": priorities, "cf_safe": cf_safe, "fx_ops": fx_ops,
+              "defaults_valid": defaults_valid, "default_spike": default_spike, "default_flat": default_flat,
+              "default_atten": default_atten, "default_location": default_location}
 
 
 def _pairs(rs):
@@ -169,6 +226,27 @@ def lean_for(table: str, val) -> tuple[str, str]:
                 "theorem src_fxOps_ok : Pin.fxOpsOk srcFxOps = true := by decide\n"
                 "theorem src_fxOps (o : BinOp) : ∀ e ∈ srcFxOps, e.1 = Pin.BinOp.symbol o → e.2 = Pin.BinOp.pyOp o :=\n"
                 "  C20_pin_fxOps _ src_fxOps_ok o\n", "src_fxOps")
+    b = lambda x: "true" if x else "false"  # noqa: E731
+    if table == "defaults_valid":
+        return (f"theorem src_defaults_ok : (({b(val[0])}, {b(val[1])}) : Bool × Bool) = (Defaults.validStartInclusive, Defaults.validEndInclusive) := by decide\n"
+                f"theorem src_defaults (lo hi : V) (inp : List V) : validRange lo hi {b(val[0])} {b(val[1])} inp = validRange lo hi true false inp :=\n"
+                "  C03_pin_defaults _ _ src_defaults_ok lo hi inp\n", "src_defaults")
+    if table == "default_spike":
+        return (f'theorem src_default_ok : ("{val}" : String) = Defaults.spikeMethod := by decide\n'
+                f'theorem src_default (sus fail : Option Rat) (inp : List V) : spikeTest "{val}" sus fail inp = spikeTest "average" sus fail inp :=\n'
+                "  C09_pin_default_method _ src_default_ok sus fail inp\n", "src_default")
+    if table == "default_flat":
+        return (f"theorem src_default_ok : (({val} : Int) : Rat) = Defaults.flatTolerance := by decide\n"
+                f"theorem src_default (inp : List V) (ts : List Int) (sus fail : Rat) : flatLineTest inp ts sus fail (({val} : Int) : Rat) = flatLineTest inp ts sus fail 0 :=\n"
+                "  C11_pin_default_tolerance _ src_default_ok inp ts sus fail\n", "src_default")
+    if table == "default_atten":
+        return (f'theorem src_default_ok : ("{val}" : String) = Defaults.attenCheckType := by decide\n'
+                '#check @C12_pin_default_check_type\n', "src_default_ok")
+    if table == "default_location":
+        body = "[" + ", ".join(f"(({v} : Int) : Rat)" for v in val) + "]"
+        return (f"theorem src_default_ok : ({body} : List Rat) = Defaults.locationBBox := by decide\n"
+                f"theorem src_default (lon lat : List V) (r : Option Rat) (hops : List V) : locationTest lon lat ⟨true, {body}⟩ r hops = locationTest lon lat ⟨true, [-180, -90, 180, 90]⟩ r hops :=\n"
+                "  C14_pin_default_bbox _ src_default_ok lon lat r hops\n", "src_default")
     raise ValueError(table)
 
 
